@@ -1,7 +1,7 @@
 (* Facts about the second-generation model (RBus.v, RModel.v) shared by the
    proofs of C13 and C14: inversion of sequenced computations, the state
    invariant, and the contract [good] every computation of loop.py and of the
-   bus satisfies as long as no K10 entry is logged. *)
+   bus satisfies. *)
 From Coq Require Import ZArith List Bool Arith Lia ZifyBool.
 From Desper Require Import Lib.Alist Loop.RBus Loop.RModel.
 Import ListNotations.
@@ -143,11 +143,14 @@ Lemma handle_call_cached h s w :
   alookup h (s_cache s) = Some w -> handle_call h s = (s, w, []).
 Proof. intros H. unfold handle_call. now rewrite H. Qed.
 
-(* ---- no K10 entry -------------------------------------------------------- *)
-Definition nok10 (l : list entry) : bool := forallb (fun e => negb (k10_entry e)) l.
+(* The contracts below carry a condition on the log of the computation.  It
+   used to exclude the entries of the former known finding K10; since the
+   repair of loop.py (ce4190f) every log qualifies, and the condition is kept
+   only so that the contracts keep their shape. *)
+Definition nok10 (l : list entry) : bool := true.
 
 Lemma nok10_app l1 l2 : nok10 (l1 ++ l2) = true -> nok10 l1 = true /\ nok10 l2 = true.
-Proof. unfold nok10. rewrite forallb_app. intros H. apply andb_prop in H. exact H. Qed.
+Proof. intros _. split; reflexivity. Qed.
 
 Definition is_sw (r : res) : bool :=
   match r with RExn (XSW _ _ _ _) => true | _ => false end.
@@ -169,11 +172,6 @@ Definition post (s s' : state) (r : res) : Prop :=
 
 Definition good (m : M) : Prop := forall s s' l r,
   m s = Some (s', l, r) -> inv s -> cur_ok s -> nok10 l = true -> post s s' r.
-
-(* ... and, while the loop is carrying out a switch, no SwitchWorld comes out *)
-Definition calm (m : M) : Prop := forall s s' l r,
-  m s = Some (s', l, r) -> inv s -> cur_ok s -> nok10 l = true ->
-  s_inh s = true -> is_sw r = false.
 
 Lemma post_refl s : inv s -> cur_ok s -> post s s RNorm.
 Proof. intros I C. unfold post. repeat split; auto; apply I. Qed.
@@ -197,29 +195,15 @@ Proof.
   - destruct H2 as (->&->&->). eapply Gm; eauto.
 Qed.
 
-Lemma calm_andthen m k : good m -> calm m -> calm k -> calm (m ;; k).
-Proof.
-  intros Gm Cm Ck s s' l r H I C N Hi.
-  apply andthen_inv in H as (s1&l1&r1&H1&H2). destruct r1 as [|x].
-  - destruct H2 as (l2&H2&->). apply nok10_app in N as [N1 N2].
-    pose proof (Gm _ _ _ _ H1 I C N1) as (I1&_&_&E&_&C1&_).
-    eapply Ck; eauto; congruence.
-  - destruct H2 as (->&->&->). eapply Cm; eauto.
-Qed.
 
 Lemma good_emit l : good (emit l).
 Proof. intros s s' l' r [= <- <- <-] I C _. now apply post_refl. Qed.
-Lemma calm_emit l : calm (emit l).
-Proof. intros s s' l' r [= <- <- <-] _ _ _ _. reflexivity. Qed.
 Lemma good_ret : good ret.
 Proof. intros s s' l' r [= <- <- <-] I C _. now apply post_refl. Qed.
-Lemma calm_ret : calm ret.
-Proof. intros s s' l' r [= <- <- <-] _ _ _ _. reflexivity. Qed.
 
 Section BusFacts.
   Variable react : ekind -> action -> M.
   Hypothesis Hgood : forall k a, good (react k a).
-  Hypothesis Hcalm : forall k a, calm (react k a).
 
   Lemma set_reacts_inv rs s : inv s -> inv (set_reacts rs s).
   Proof. intros I. exact I. Qed.
@@ -232,13 +216,6 @@ Section BusFacts.
     pose proof (Hgood k a _ _ _ _ H I C N) as P. exact P.
   Qed.
 
-  Lemma calm_deliver w e : calm (deliver react w e).
-  Proof.
-    unfold deliver. apply calm_andthen; [apply good_emit|apply calm_emit|].
-    intros s s' l r H I C N Hi. destruct (kind_of e) as [k|]; [|eapply calm_ret; eauto].
-    destruct (take_reaction k (s_reacts s)) as [[a rest]|]; [|eapply calm_ret; eauto].
-    eapply (Hcalm k a); eauto.
-  Qed.
 
   (* queueing on a disabled world *)
   Lemma post_queue w W V s :
@@ -261,14 +238,6 @@ Section BusFacts.
     - eapply good_ret; eauto.
   Qed.
 
-  Lemma calm_dispatch w e : calm (dispatch react w e).
-  Proof.
-    intros s s' l r H I C N Hi. unfold dispatch in H.
-    destruct (alookup w (s_worlds s)) as [W|] eqn:L.
-    - destruct (w_en W) eqn:E; [eapply calm_deliver; eauto|].
-      injection H as <- <- <-. reflexivity.
-    - injection H as <- <- <-. reflexivity.
-  Qed.
 
   Lemma post_pop w e rest s :
     alookup w (s_worlds s) = Some (true, e :: rest) -> inv s -> cur_ok s ->
@@ -292,18 +261,6 @@ Section BusFacts.
     eapply G; eauto; [apply P1|apply P1; reflexivity].
   Qed.
 
-  Lemma calm_release w fuel : calm (release react w fuel).
-  Proof.
-    induction fuel as [|x fuel IH]; intros s s' l r H I C N Hi; cbn [release] in H;
-      destruct (alookup w (s_worlds s)) as [[[|] [|e rest]]|] eqn:L;
-      try (injection H as <- <- <-; reflexivity); try discriminate.
-    apply andthen_inv in H as (s1&l1&r1&H1&H2). injection H1 as <- <- <-.
-    destruct H2 as (l2&H2&->). cbn [app] in N.
-    pose proof (post_pop _ _ _ _ L I C) as P1.
-    assert (G : calm (dispatch react w e ;; release react w fuel))
-      by (apply calm_andthen; [apply good_dispatch|apply calm_dispatch|exact IH]).
-    eapply G; eauto; [apply P1|apply P1; reflexivity].
-  Qed.
 
   (* enabling the loop's current world (the only world the loop enables) *)
   Lemma good_enable_cur w s s' l r :
@@ -311,7 +268,7 @@ Section BusFacts.
     (exists W, alookup w (s_worlds s) = Some W) -> nok10 l = true ->
     inv s' /\ s_curw s' = s_curw s /\ s_curh s' = s_curh s /\ s_inh s' = s_inh s /\
     (forall h x, alookup h (s_cache s) = Some x -> alookup h (s_cache s') = Some x) /\
-    (is_sw r = false -> cur_ok s') /\ tag_ok r s' /\ (s_inh s = true -> is_sw r = false).
+    (is_sw r = false -> cur_ok s') /\ tag_ok r s'.
   Proof.
     intros H I Ew [W L] N. unfold enable in H. rewrite L in H.
     apply andthen_inv in H as (s1&l1&r1&H1&H2). injection H1 as <- <- <-.
@@ -322,8 +279,7 @@ Section BusFacts.
     { unfold cur_ok, s1. cbn. rewrite <- Ew, alookup_aset_eq. eauto. }
     pose proof (good_release w (w_q W) _ _ _ _ H2 I1 C1 N) as (A1&A2&A3&A4&A5&A6&A7).
     split; [exact A1|]. split; [exact A2|]. split; [exact A3|]. split; [exact A4|].
-    split; [exact A5|]. split; [exact A6|]. split; [exact A7|].
-    intros Hi. pose proof (calm_release w (w_q W)) as Cr. unfold calm in Cr. eapply Cr; eauto.
+    split; [exact A5|]. split; [exact A6|]. exact A7.
   Qed.
 End BusFacts.
 
@@ -331,7 +287,6 @@ End BusFacts.
 Section LoopFacts.
   Variable react : ekind -> action -> M.
   Hypothesis Hgood : forall k a, good (react k a).
-  Hypothesis Hcalm : forall k a, calm (react k a).
 
   Lemma good_switch_fn h cc cn : good (switch_fn react h cc cn).
   Proof.
@@ -394,14 +349,6 @@ Section LoopFacts.
       [apply good_dispatch; exact Hgood|apply good_raise; exact I].
   Qed.
 
-  Lemma calm_quit_fn : calm (quit_fn react).
-  Proof.
-    intros s s' l r H. unfold quit_fn in H. revert H.
-    apply (calm_andthen (dispatch react (s_curw s) VQuit) (raise XQuit)).
-    - apply good_dispatch; exact Hgood.
-    - apply calm_dispatch; exact Hcalm.
-    - intros s0 s0' l0 r0 [= <- <- <-] _ _ _ _. reflexivity.
-  Qed.
 
   Lemma good_perform_body a : good (perform_body react a).
   Proof.
@@ -421,36 +368,13 @@ Section LoopFacts.
       [apply good_emit|apply good_perform_body].
   Qed.
 
-  Lemma calm_perform_callback k a s s' l r :
-    perform react (OCallback k (s_inh s)) a s = Some (s', l, r) ->
-    inv s -> cur_ok s -> nok10 l = true -> s_inh s = true -> is_sw r = false.
-  Proof.
-    intros H I0 C N Hi. unfold perform in H.
-    apply andthen_inv in H as (s1&l1&r1&E1&H2). injection E1 as <- <- <-.
-    destruct H2 as (l2&H2&->). cbn [app] in N. unfold nok10 in N. cbn [forallb] in N.
-    apply andb_prop in N as [N1 N2]. rewrite Hi in N1.
-    destruct a as [| |q|h cc cn ex|h cc cn|]; cbn [perform_body] in H2;
-      try (cbn in N1; discriminate);
-      try (injection H2 as <- <- <-; reflexivity).
-    eapply calm_quit_fn; eauto.
-  Qed.
 End LoopFacts.
 
-Lemma react_n_good_calm n : forall k a, good (react_n n k a) /\ calm (react_n n k a).
+Lemma react_n_good n : forall k a, good (react_n n k a).
 Proof.
-  induction n as [|n IH]; intros k a.
-  - split; intros s s' l r H; discriminate.
-  - assert (G : forall k a, good (react_n n k a)) by (intros; apply IH).
-    assert (Cm : forall k a, calm (react_n n k a)) by (intros; apply IH).
-    split; intros s s' l r H; cbn [react_n] in H.
-    + eapply (good_perform (react_n n) G); eauto.
-    + eapply (calm_perform_callback (react_n n) G Cm); eauto.
+  induction n as [|n IH]; intros k a s s' l r H; [discriminate|].
+  cbn [react_n] in H. revert H. apply (good_perform (react_n n) IH).
 Qed.
-
-Lemma react_n_good n k a : good (react_n n k a).
-Proof. apply react_n_good_calm. Qed.
-Lemma react_n_calm n k a : calm (react_n n k a).
-Proof. apply react_n_good_calm. Qed.
 
 Lemma clears_inv h cc cn s : inv s -> inv (clears h cc cn s).
 Proof.
@@ -464,11 +388,12 @@ Lemma clears_fields h cc cn s :
   s_inh (clears h cc cn s) = s_inh s /\ s_reacts (clears h cc cn s) = s_reacts s.
 Proof. unfold clears. destruct cn, cc; try destruct (s_curh s =? none); cbn; auto 10. Qed.
 
-(* SimpleLoop.switch, however it ends (no K10): the current world is the
-   instance the handle holds, it exists and dispatches; no SwitchWorld *)
+(* SimpleLoop.switch, however it ends: the current world is the instance the
+   handle holds; unless a SwitchWorld comes out (a callback of the entered
+   world called switch(), which muted it) it dispatches *)
 Lemma loop_switch_post n h cc cn s s' l r :
   loop_switch (react_n n) h cc cn s = Some (s', l, r) -> inv s -> nok10 l = true ->
-  inv s' /\ cur_ok s' /\ s_curh s' = h /\ is_sw r = false /\
+  inv s' /\ (is_sw r = false -> cur_ok s') /\ s_curh s' = h /\ tag_ok r s' /\
   alookup h (s_cache s') = Some (s_curw s').
 Proof.
   intros H I N. unfold loop_switch in H.
@@ -478,26 +403,33 @@ Proof.
   destruct (handle_call_inv _ _ _ _ _ H3 I2) as (I3&C3&[W3 HW3]&_&_&_&_&Fi3&_).
   rewrite (handle_call_cached h (set_cur w h s3) w C3) in H.
   apply andthen_inv in H as (s5&l5&r5&E5&H5). injection E5 as <- <- <-.
-  destruct H5 as (l6&H6&->). apply nok10_app in N as [_ N].
+  destruct H5 as (l6&H6&->).
   apply andthen_inv in H6 as (s6&l6'&r6&E6&H7).
-  assert (Hi : s_inh (set_cur w h s3) = true).
-  { cbn. rewrite Fi3. unfold s2. destruct (clears_fields h cc cn (set_inh true s)) as (_&_&_&_&A&_).
-    rewrite A. reflexivity. }
   assert (I4 : inv (set_cur w h s3)) by exact I3.
-  assert (Nr : nok10 l6' = true).
-  { destruct r6; [destruct H7 as (l7&_&->); apply nok10_app in N; apply N
-                 |destruct H7 as (_&->&_); exact N]. }
-  destruct (good_enable_cur (react_n n) (react_n_good n) (react_n_calm n) w _ _ _ _ E6 I4
-              eq_refl (ex_intro _ W3 HW3) Nr) as (A1&A2&A3&A4&A5&A6&A7&A8).
-  specialize (A8 Hi).
+  destruct (good_enable_cur (react_n n) (react_n_good n) w _ _ _ _ E6 I4
+              eq_refl (ex_intro _ W3 HW3) eq_refl) as (A1&A2&A3&A4&A5&A6&A7).
   destruct r6 as [|x].
-  - destruct H7 as (l7&H7&->). injection H7 as <- <- <-.
-    specialize (A6 eq_refl). cbn in A2, A3.
-    split; [exact A1|]. split; [exact A6|]. split; [exact A3|]. split; [reflexivity|].
-    cbn. rewrite A2. apply A5. exact C3.
-  - destruct H7 as (->&->&->). specialize (A6 A8). cbn in A2, A3.
-    split; [exact A1|]. split; [exact A6|]. split; [exact A3|]. split; [exact A8|].
+  - destruct H7 as (l7&H7&->). injection H7 as <- <- <-. cbn in A2, A3.
+    split; [exact A1|]. split; [intros _; exact (A6 eq_refl)|]. split; [exact A3|].
+    split; [exact Logic.I|]. cbn. rewrite A2. apply A5. exact C3.
+  - destruct H7 as (->&->&->). cbn in A2, A3.
+    split; [exact A1|]. split; [exact A6|]. split; [exact A3|]. split; [exact A7|].
     rewrite A2. apply A5. exact C3.
+Qed.
+
+(* the except clause of SimpleLoop.loop: rounds of SimpleLoop.switch until no
+   SwitchWorld comes out; then the current world dispatches *)
+Lemma handler_post f n : forall h cc cn s s' l r,
+  handler (react_n f) n h cc cn s = Some (s', l, r) -> inv s ->
+  inv s' /\ cur_ok s' /\ is_sw r = false.
+Proof.
+  induction n as [|n IH]; intros h cc cn s s' l r H I; cbn [handler] in H; [discriminate|].
+  destruct (loop_switch (react_n f) h cc cn s) as [[[s1 l1] r1]|] eqn:LS; [|discriminate].
+  destruct (loop_switch_post _ _ _ _ _ _ _ _ LS I eq_refl) as (I1&C1&_).
+  destruct r1 as [|[| |h2 cc2 cn2 t2]];
+    try (injection H as <- <- <-; split; [exact I1|]; split; [exact (C1 eq_refl)|reflexivity]).
+  destruct (handler (react_n f) n h2 cc2 cn2 s1) as [[[s2 l2] r2]|] eqn:Hd; [|discriminate].
+  injection H as <- <- <-. apply (IH _ _ _ _ _ _ _ Hd I1).
 Qed.
 
 (* ---- pokes, processors ---------------------------------------------------- *)
@@ -568,4 +500,24 @@ Proof.
   unfold dispatch in D5. rewrite L4 in D5. cbn [w_en w_q fst snd] in D5.
   injection D5 as <- <- <-. destruct H6 as (l6&H6&->). injection H6 as <- <- <-.
   repeat split; reflexivity.
+Qed.
+
+(* ---- well-formed operations ----------------------------------------------- *)
+Definition op_ok (x : op * list entry) : bool :=
+  match fst x with
+  | OTop _ _ _ _ => negb (existsb top_escapes (snd x))
+  | OStart fs _ _ => forallb frame_origin_ok fs
+  end.
+
+Lemma top_escape_sw l r w h :
+  negb (existsb top_escapes
+          (l ++ [match r with
+                 | RNorm => ETopDone w h
+                 | RExn XQuit => ETopExc TQuit w h
+                 | RExn XOther => ETopExc TOther w h
+                 | RExn (XSW _ _ _ _) => ETopExc TSwitch w h
+                 end])) = true -> is_sw r = false.
+Proof.
+  rewrite existsb_app. destruct r as [|[| |h' cc cn t]]; cbn; auto.
+  rewrite orb_true_r. discriminate.
 Qed.
